@@ -130,6 +130,31 @@ def doValid (line : String) : String :=
     if Valid.validB g nN C then "(valid true)" else s!"(valid false {Sexp.hex (Valid.explain g nN C).toList})"
   | _ => "(bad-request)"
 
+/-- `machine-num <hexsrc>`: the model's automaton for a grammar source, as numbers with
+declaration-index codes (the `S` section of a `valid` request), plus a FIRST table (`F`).
+Used to build the certificate for the tables extracted from `parser.rs` (C09). -/
+def doMachineNum (line : String) : String :=
+  withSrc line fun src sha =>
+    let st := Generate.stages src sha bigFuel
+    match st.enc, st.machine with
+    | some enc, some m =>
+      let tdec (code : Nat) : Nat := (enc.tdecl.idxOf? code).getD 0
+      let ndec (code : Nat) : Nat := (enc.ndecl.idxOf? code).getD 0
+      let item (i : Machine.Item) : String :=
+        (if i.rule = enc.ctx.numRules then "a" else toString i.rule) ++ "." ++ toString i.dot ++ "." ++
+        (if i.la = enc.ctx.nT then "e" else toString (tdec i.la))
+      let states := "|".intercalate (m.states.map fun s => ",".intercalate (s.map item))
+      -- grammar in declaration-index codes, for the FIRST table
+      let conv : LR.Sym Nat Nat → LR.Sym Nat Nat
+        | .t a => .t (tdec a)
+        | .n b => .n (ndec b)
+      let g : LR.Grammar Nat Nat :=
+        { rules := enc.ctx.g.rules.map fun r => ⟨ndec r.lhs, r.rhs.map conv⟩, start := ndec enc.ctx.g.start }
+      let ft := Valid.computeFirst g enc.ctx.nT enc.ctx.nN
+      let first := "|".intercalate (ft.map fun (ts, e) => ",".intercalate (ts.map toString) ++ ":" ++ (if e then "1" else "0"))
+      s!"{m.start} S {states} F {first}"
+    | _, _ => "(no-machine)"
+
 /-! oset: every element type is represented as `List Nat` (order-isomorphic) -/
 
 def parseElem (ty : String) (s : String) : List Nat :=
@@ -215,6 +240,7 @@ def main (args : List String) : IO UInt32 := do
     | ["hash"] => pure doHash
     | ["drive"] => pure doDrive
     | ["valid"] => pure doValid
+    | ["machine-num"] => pure doMachineNum
     | ["oset"] => pure doOset
     | ["chars"] => pure doChars
     | _ => IO.eprintln "usage: kvmodel tokenize|stages|generate|hash|drive|oset|chars"; return 2
